@@ -229,6 +229,53 @@ def fn_allpairs(items):
     return {'n': n, 'nt': nt, 'viol': viol}
 
 
+def fn_history(items):
+    """item = [N, lo, hi]: histories on ONE live map object: inverse() -> in-place mutation (rotate_by every
+    generator / transform_by every generator map / embed) -> inverse() and compose() again.  The second
+    answers must refer to the mutated map (no stale cache), and the first answers must stay untouched."""
+    n = nt = 0
+    viol = []
+    for N, lo, hi in items:
+        maps = dom.valid_maps(N)
+        herm = dom.hermitian_paulis(N, include_identity=False)
+        for ia in range(lo, min(hi, len(maps))):
+            t, s = maps[ia]
+            item = [N, ia, ia + 1]
+            muts = [('rotate_by(%s)' % ref.g_to_str(g, p), (lambda g=g, p=p: (lambda M: M.rotate_by(lib.P(g, p))))()) for g, p in herm[(ia % 3)::3]]
+            muts += [('transform_by(%s)' % nm, (lambda tg=tg, sg=sg: (lambda M: M.transform_by(lib.CM(tg, sg))))()) for nm, tg, sg in gens(N)]
+            for label, mut in muts:
+                M = lib.CM(t, s)
+                inv1 = M.inverse()
+                c1 = M.compose(inv1)
+                snap1 = snap(inv1)
+                mut(M)
+                mg, mp = np.asarray(M.gs).astype(np.int64), np.asarray(M.ps).astype(np.int64) % 4
+                n += 1
+                if not ref.is_valid_map(mg, mp):
+                    continue      # the mutator itself is wrong: owned by C02/C03
+                nt += 1
+                inv2 = M.inverse()
+                ig, ip = np.asarray(inv2.gs).astype(np.int64), np.asarray(inv2.ps).astype(np.int64) % 4
+                I = np.eye(2 * N, dtype=np.int64)
+                ok = ig.shape == mg.shape and ref.is_valid_map(ig, ip)
+                if ok:
+                    g1, p1 = ref.map_apply(ig, ip, mg, mp)
+                    g2, p2 = ref.map_apply(mg, mp, ig, ip)
+                    ok = (g1 == I).all() and (g2 == I).all() and not p1.any() and not p2.any()
+                if not ok:
+                    viol.append(V('C04/history/inverse-after-inplace-mutation', item, 'map %s%s: inverse(); %s; inverse() again is not the inverse of the mutated map' % (
+                        np.asarray(t).tolist(), np.asarray(s).tolist(), label)))
+                # compose after mutation refers to the current table
+                X = lib.CM(*gens(N)[ia % len(gens(N))][1:])
+                C = M.compose(X)
+                eg, ep = ref_compose(mg, mp, np.asarray(X.gs), np.asarray(X.ps))
+                if (np.asarray(C.gs) != eg).any() or (np.asarray(C.ps) % 4 != ep).any():
+                    viol.append(V('C04/history/compose-after-inplace-mutation', item, 'compose after %s does not use the mutated map' % label))
+                if not same(inv1, snap1):
+                    viol.append(V('C04/history/earlier-result-changed', item, 'the inverse returned before %s changed afterwards (shared data)' % label))
+    return {'n': n, 'nt': nt, 'viol': viol}
+
+
 def fn_closure(items):
     """item = [N]: BFS closure of {identity} under the LIBRARY's compose with the generator maps
     must be exactly the independently enumerated valid-map set (both inclusions)."""
@@ -327,6 +374,9 @@ def legs(tier):
     blk = 45
     out.append(Leg('N2_gens', fn_n2, [['py', lo, lo + blk] for lo in range(0, 11520, blk)], chunk=1, src_states=11520,
                    bound='N=2: all 11520 maps: inverse (two-sided, reference + library), neutrality, compose with 10 generators on both sides, anti-homomorphism'))
+    hstep = 40 if tier == 'quick' else 4
+    out.append(Leg('histories', fn_history, [[1, i, i + 1] for i in range(24)] + [[2, lo, lo + 1] for lo in range(0, 11520, hstep)], chunk=4,
+                   bound='one live map object: inverse -> in-place rotate_by / transform_by -> inverse, compose again; all 24 maps of N=1, every %dth of the 11520 maps of N=2, x (a third of the generators rotating with the map index + 10 generator maps)' % hstep))
     out.append(Leg('closure', fn_closure, [[1], [2]], chunk=1, bound='BFS closure under the library compose = the enumerated group (24 / 11520)'))
     z = [[2, 0, 16, 'py']] + [[4, lo, lo + 4096, 'py'] for lo in range(0, 65536, 4096)]
     out.append(Leg('z2inv', fn_z2inv, z, chunk=1, bound='all 16 2x2 and all 65536 4x4 binary matrices (20160 invertible, 45376 singular)'))
